@@ -260,7 +260,10 @@ pub fn closure_stream(rep: &mut Report, rng: &mut Rng, n: usize) {
                     let show_tab = |m: &BTreeMap<u32, Vec<u32>>| -> String { if m.is_empty() { "-".into() } else { m.iter().map(|(id, c)| format!("{id}:{}", c.iter().map(|x| x.to_string()).collect::<Vec<_>>().join("."))).collect::<Vec<_>>().join(";") } };
                     let mentioned: BTreeSet<u32> = before.values().flatten().copied().collect();
                     let finds: Vec<String> = mentioned.iter().filter_map(|x| db.get_table(uf).get_row(&[Value::new(*x)]).map(|r| format!("{x}>{}", r.vals[1].rep()))).collect();
-                    let hc_line = format!("hc rebuild {} {}", if finds.is_empty() { "-".into() } else { finds.join(",") }, show_tab(&before));
+                    // precondition of the model: no id OF a stored container is itself displaced (the model does not
+                    // rewrite the entry's own id, `rebuild_val(old_val)`; the loser of a merge leaves the table in the same pass)
+                    let ids_canonical = before.keys().all(|id| db.get_table(uf).get_row(&[Value::new(*id)]).is_none());
+                    let hc_line = if !ids_canonical { "skip".to_string() } else { format!("hc rebuild {} {}", if finds.is_empty() { "-".into() } else { finds.join(",") }, show_tab(&before)) };
                     let merges_before = merges.load(std::sync::atomic::Ordering::SeqCst);
                     let summary = db.rebuild_containers(uf);
                     db.merge_all();
@@ -295,6 +298,7 @@ pub fn closure_stream(rep: &mut Report, rng: &mut Rng, n: usize) {
     match run_driver(&hc_lines) {
         Err(e) => rep.violate("correspondence", "driver-failure", e, json!({})),
         Ok(m) => for (i, (after, hist)) in hc_want.iter().enumerate() {
+            if hc_lines[i] == "skip" { rep.count("hashcons_pass_skipped(displaced container id: outside the model's precondition)", 1); continue; }
             rep.traces_vs_model += 1;
             let mut parts = m[i].split(' ');
             let (tab, unions) = (parts.next().unwrap_or(""), parts.next().and_then(|x| x.parse::<usize>().ok()).unwrap_or(0));
